@@ -158,6 +158,13 @@ def run(tier, replay=None):
         errs = [rnd.choice(texts[("streamable", o)]) for o in s["outcomes"]]
         direct.append({"id": sid, "retry": cfg, "errors": errs, "cancel": {"at": "", "k": 0}})
         meta[sid] = (s, "streamable", cfg, errs)
+    # the wait begins when the attempt has FAILED: attempts that take 30 ms themselves, back-offs of 40, 80 ms
+    for n, s in enumerate([x for x in capc if len(x["outcomes"]) >= 2][:4 if tier == "quick" else 12]):
+        sid = "slowop%d" % n
+        cfg = {"max": int(s["cfg"]), "initial_ms": 40.0, "factor": 2.0, "max_ms": 1000.0}
+        errs = [rnd.choice(texts[("streamable", o)]) for o in s["outcomes"]]
+        direct.append({"id": sid, "retry": cfg, "errors": errs, "op_ms": 30.0, "cancel": {"at": "", "k": 0}})
+        meta[sid] = (s, "streamable", cfg, errs)
     # the cap bites where MaxBackoff / InitialBackoff is not an integer: 400, 600, 790 ms (the upper bound of a wait is cap + 250 ms)
     for n, s in enumerate([x for x in capc if len(x["outcomes"]) >= 2][:4 if tier == "quick" else 12]):
         sid = "capfrac%d" % n
